@@ -49,7 +49,9 @@ FreeLocals == (1..(ScratchBase + 9)) \cup {ScratchBase + 14, ScratchBase + 15}  
 
 I(op, a, b) == [op |-> op, a |-> a, b |-> b]
 LocalsOf(t) == {i \in FreeLocals : Locals[i] = t}
-Frame(k, res, h, lp) == [kind |-> k, res |-> res, height |-> h, unreach |-> FALSE, loops |-> lp]
+(* a frame: par = the block's parameters (multi-value block types; they sit on the stack above height), res = its results *)
+FrameP(k, par, res, h, lp) == [kind |-> k, par |-> par, res |-> res, height |-> h, unreach |-> FALSE, loops |-> lp]
+Frame(k, res, h, lp) == FrameP(k, <<>>, res, h, lp)
 
 (* with Idioms the scratch value locals start with (driver chosen) constants instead of zero *)
 RECURSIVE PrologueFrom(_)
@@ -262,11 +264,11 @@ AtEnd(f) == f.unreach \/ (Len(vstack) = f.height + Len(f.res) /\ TopTypes(Len(f.
 
 Else == /\ ~fin /\ Top.kind = "if" /\ AtEnd(Top)
         /\ cstack' = [cstack EXCEPT ![Len(cstack)] = [Top EXCEPT !.kind = "else", !.unreach = FALSE]]
-        /\ vstack' = SubSeq(vstack, 1, Top.height)
+        /\ vstack' = SubSeq(vstack, 1, Top.height) \o Top.par
         /\ Emit(<<I("else", "", "")>>) /\ UNCHANGED <<bad, fin>>
 
 End == /\ ~fin /\ Len(cstack) > 1 /\ AtEnd(Top)
-       /\ (Top.kind = "if" => Top.res = <<>>)          \* an if with a result needs its else
+       /\ (Top.kind = "if" => Top.res = Top.par)       \* an if without else must map its parameters to themselves
        /\ vstack' = SubSeq(vstack, 1, Top.height) \o Top.res
        /\ cstack' = SubSeq(cstack, 1, Len(cstack) - 1)
        /\ Emit(IF Top.kind = "loop" /\ ~Top.unreach
@@ -286,13 +288,13 @@ BrIf == /\ Live /\ Growing /\ Avail >= 1 /\ vstack[Len(vstack)] = "i32"
 
 (* unconditional exits: the rest of the frame is unreachable, so only End / Else may follow *)
 Exit == /\ Live /\ Growing /\ Len(cstack) > 1
-        /\ Top.kind \in {"if", "else"}        \* only on a conditional path, so that the other path keeps executing
+        /\ Top.kind \in {"if", "else", "block"}   \* return / unreachable only on a conditional path, so that the other path keeps executing
         /\ \/ /\ \E d \in 0..(Len(cstack) - 2) :
                    LET f == cstack[Len(cstack) - d] IN
                    /\ f.kind \in {"block", "if", "else"} /\ Len(f.res) <= Avail /\ TopTypes(Len(f.res)) = f.res
                    /\ Emit(<<I("br", d, "")>>)
-           \/ /\ Len(Results) <= Avail /\ TopTypes(Len(Results)) = Results /\ Emit(<<I("return", "", "")>>)
-           \/ (Len(code) % 5 = 0 /\ Emit(<<I("unreachable", "", "")>>))
+           \/ /\ Top.kind # "block" /\ Len(Results) <= Avail /\ TopTypes(Len(Results)) = Results /\ Emit(<<I("return", "", "")>>)
+           \/ (Top.kind # "block" /\ Len(code) % 5 = 0 /\ Emit(<<I("unreachable", "", "")>>))
         /\ cstack' = [cstack EXCEPT ![Len(cstack)].unreach = TRUE]
         /\ UNCHANGED <<vstack, bad, fin>>
 
@@ -402,6 +404,59 @@ HostCall ==
                          /\ vstack' = Pop(Len(s.p)) \o s.r /\ Emit(<<I("callhost", s, "")>>)
   /\ UNCHANGED <<cstack, bad, fin>>
 
+Supply(ts) == [k \in 1..Len(ts) |-> I("local.get", TmpOf(ts[k]), "")]
+(* br d with the label's operands supplied from scratch locals: possible whatever is on the stack *)
+ExitSupplied ==
+  /\ \E d \in 0..(Len(cstack) - 2) :
+       LET f == cstack[Len(cstack) - d] IN
+       /\ f.kind \in {"block", "if", "else"}
+       /\ Emit(Supply(f.res) \o <<I("br", d, "")>>)
+  /\ cstack' = [cstack EXCEPT ![Len(cstack)].unreach = TRUE]
+  /\ UNCHANGED <<vstack, bad, fin>>
+
+(* multi-value block types [p] -> [r]: the parameters are popped from the enclosing frame and are the first operands of
+   the new one; the label of a block / if carries r, the label of a loop carries p.  Loops are [p] -> [p] so that the
+   counted back-edge (br_if 0 with the parameters below the condition) and the fall-through both type. *)
+BlockSigs == {[p |-> <<"i32">>, r |-> <<"i32">>], [p |-> <<"i64">>, r |-> <<"i64">>], [p |-> <<"v128">>, r |-> <<"v128">>],
+              [p |-> <<"i32", "v128">>, r |-> <<"i32", "v128">>], [p |-> <<"f64", "i32">>, r |-> <<"f64", "i32">>],
+              [p |-> <<"i32", "i32">>, r |-> <<"i32">>], [p |-> <<>>, r |-> <<"i32", "i64">>], [p |-> <<"f32">>, r |-> <<"f32", "f32">>]}
+OpenMulti ==
+  /\ Live /\ Growing /\ Has("multi") /\ Len(cstack) < 5 /\ Len(code) % 3 # 1
+  /\ \E bs \in BlockSigs : \E own \in BOOLEAN :      \* own: the operands already on the stack are the parameters
+       LET np == Len(bs.p)
+           base == IF own THEN Len(vstack) - np ELSE Len(vstack)
+           pre == IF own THEN <<>> ELSE Supply(bs.p)
+           inside == IF own THEN vstack ELSE vstack \o bs.p IN
+       /\ own => np > 0 /\ np <= Avail /\ TopTypes(np) = bs.p
+       /\ \/ /\ cstack' = Append(cstack, FrameP("block", bs.p, bs.r, base, Top.loops))
+             /\ Emit(pre \o <<I("block", bs, "")>>) /\ vstack' = inside
+          \/ /\ bs.p = bs.r /\ Top.loops < 3
+             /\ cstack' = Append(cstack, FrameP("loop", bs.p, bs.r, base, Top.loops + 1))
+             /\ Emit(pre \o <<I("i32.const", 2 + (Mix % 2), ""), I("local.set", Counter(Top.loops + 1), ""), I("loop", bs, "")>>) /\ vstack' = inside
+          \/ /\ cstack' = Append(cstack, FrameP("if", bs.p, bs.r, base, Top.loops))
+             /\ Emit(pre \o <<I("local.get", TmpOf("i32"), ""), I("if", bs, "")>>) /\ vstack' = inside
+  /\ UNCHANGED <<bad, fin>>
+
+(* dead code: after an unconditional exit the operand stack of the frame is polymorphic - operands that are not there
+   have whatever type is asked for.  Every step below is balanced (it leaves no value behind), so the frame can still end.
+   A block opened here is ordinary code that is never executed. *)
+LabelT(d) == LET f == cstack[Len(cstack) - d] IN IF f.kind = "loop" THEN f.par ELSE f.res      \* d = Len(cstack) - 1 is the function itself
+SameLabel(d) == {e \in 0..(Len(cstack) - 1) : LabelT(e) = LabelT(d)}
+DeadOps == {o \in Ops : o.op \in {"i32.add", "f64.sqrt", "i64.eqz", "i8x16.swizzle"}}
+Drops(n) == [k \in 1..n |-> I("drop", "", "")]
+DeadCode ==
+  /\ ~fin /\ Top.unreach /\ Growing /\ Has("dead") /\ Len(code) % 4 # 3
+  /\ \/ Emit(<<I("drop", "", "")>>) /\ UNCHANGED cstack
+     \/ (\E o \in DeadOps : Emit(<<I(o.op, "", "")>> \o Drops(Len(o.push))) /\ UNCHANGED cstack)
+     \/ (\E d \in {0, Mix % Len(cstack)} : Emit(<<I("br", d, "")>>) /\ UNCHANGED cstack)
+     \/ (Has("brtable") /\ \E d3 \in 0..(Len(cstack) - 1) :          \* all labels of one br_table carry the same types; its operands are polymorphic
+            LET d1 == CHOOSE d \in SameLabel(d3) : \A e \in SameLabel(d3) : d <= e
+                d2 == CHOOSE d \in SameLabel(d3) : \A e \in SameLabel(d3) : e <= d IN
+            Emit(<<I("br_table", <<d1, d2>>, d3)>>) /\ UNCHANGED cstack)
+     \/ (Len(cstack) < 5 /\ Emit(<<I("block", <<>>, "")>>) /\ cstack' = Append(cstack, Frame("block", <<>>, Len(vstack), Top.loops)))
+     \/ (\E op \in {"return", "unreachable"} : Emit(<<I(op, "", "")>>) /\ UNCHANGED cstack)
+  /\ UNCHANGED <<vstack, bad, fin>>
+
 (* br_table: [i32] and the operands of the targets; all targets must expect the same types - here none *)
 BrTable ==
   /\ Live /\ Growing /\ Has("brtable") /\ Len(cstack) > 1 /\ Top.kind \in {"if", "else"}
@@ -451,6 +506,10 @@ MutateInvalid ==
      \/ \* writing an immutable global
         /\ Avail >= 1 /\ vstack[Len(vstack)] = "i32" /\ vstack' = Pop(1)
         /\ Emit(<<I("global.set", "immutable", "")>>) /\ bad' = "immutable global"
+     \/ \* an if without else whose block type does not map its parameters to themselves (the false path would leave an i64 for a v128)
+        /\ Has("multi") /\ vstack' = vstack /\ bad' = "if without else changes type"
+        /\ Emit(<<I("i64.const", 1, ""), I("i32.const", 0, ""), I("if", [p |-> <<"i64">>, r |-> <<"v128">>], ""), I("drop", "", ""),
+                  ConstOf("v128"), I("end_raw", "", ""), I("drop", "", "")>>)
      \/ \* an extra value at the end of a block: modelled by pushing a value that is never consumed
         /\ Len(cstack) > 1 /\ vstack' = vstack /\ Emit(<<I("i64.const", 1, ""), I("end_raw", "", "")>>) /\ bad' = "extra value at end"
         /\ Top.kind \in {"block", "loop"} /\ AtEnd(Top)
@@ -459,7 +518,7 @@ MutateInvalid ==
 Step == \/ Plain \/ MemLoad \/ MemStore \/ MemLane \/ LocalGet \/ LocalSet \/ GlobalGet \/ GlobalSet \/ Drop \/ Select \/ Call
         \/ SetAddr \/ MemLoadReg \/ MemStoreReg \/ MemStoreAtom \/ GuardedAccess \/ FusedBin
         \/ MemSize \/ MemGrow \/ Bulk \/ RefProduce \/ RefConsume \/ TableOps \/ BrTable
-        \/ Atomic \/ AtomicAtom \/ Fence \/ TailCall \/ HostCall
+        \/ Atomic \/ AtomicAtom \/ Fence \/ TailCall \/ HostCall \/ OpenMulti \/ DeadCode
         \/ OpenBlock \/ OpenLoop \/ OpenIf \/ Else \/ End \/ BrIf \/ Exit \/ Close \/ Finish \/ MutateInvalid
 (* a comparison result is consumed by a conditional most of the time (OpenIf is enabled whenever the guard holds) *)
 Next == IF pend # "" THEN PickRel
@@ -467,6 +526,8 @@ Next == IF pend # "" THEN PickRel
         THEN RefConsume /\ pend' = ""
         ELSE IF Idioms /\ JustCompared /\ Live /\ Growing /\ Len(cstack) < 5 /\ Len(code) % 4 # 3
         THEN (OpenIf \/ BrIf) /\ pend' = ""
+        ELSE IF Has("dead") /\ Live /\ Growing /\ Len(cstack) > 1 /\ Top.kind \in {"if", "else", "block"} /\ Mix % 5 = 1
+        THEN ExitSupplied /\ pend' = ""        \* an unconditional exit now and then, so that dead code is generated
         ELSE (Step /\ pend' = "") \/ FusedAtoms
 Spec == Init /\ [][Next]_vars
 
